@@ -12,10 +12,12 @@ package main
 // once with -tags purego.
 
 import (
+	"bytes"
 	stdjson "encoding/json"
 	"fmt"
 	"math"
 	"strings"
+	"unsafe"
 
 	"github.com/segmentio/encoding/ascii"
 )
@@ -223,7 +225,54 @@ func c20Vector(c *Ctx, raw stdjson.RawMessage) {
 	c.Sample(map[string]any{"a": v.A, "b": v.B})
 }
 
+// c20Mutated: the predicates are functions of the bytes they are given now: a buffer is asked about, changed in
+// place, and asked about again (through a slice and through a string laid over it), at every length and position
+func c20Mutated(c *Ctx) {
+	for n := 1; n <= 96; n++ {
+		for _, pos := range []int{0, n / 2, n - 1} {
+			buf := bytes.Repeat([]byte{'a'}, n)
+			str := unsafe.String(&buf[0], n)
+			other := bytes.Repeat([]byte{'A'}, n)
+			ostr := string(other)
+			k := c20Case{"mutated buffer", []byte{byte(n)}, []byte{byte(pos)}, 0, true}
+			ask := func(round string, valid, print, eq bool) {
+				for _, q := range []struct {
+					api  string
+					want bool
+					f    func() bool
+				}{
+					{"Valid", valid, func() bool { return ascii.Valid(buf) }},
+					{"ValidString", valid, func() bool { return ascii.ValidString(str) }},
+					{"ValidPrint", print, func() bool { return ascii.ValidPrint(buf) }},
+					{"ValidPrintString", print, func() bool { return ascii.ValidPrintString(str) }},
+					{"EqualFold", eq, func() bool { return ascii.EqualFold(buf, other) }},
+					{"EqualFoldString", eq, func() bool { return ascii.EqualFoldString(str, ostr) }},
+					{"HasPrefixFoldString", eq, func() bool { return ascii.HasPrefixFoldString(str, ostr) }},
+					{"HasSuffixFoldString", eq, func() bool { return ascii.HasSuffixFoldString(str, ostr) }},
+				} {
+					var got bool
+					c.Eval(1)
+					if p := protect(func() { got = q.f() }); p != "" || got != q.want {
+						c.Diverge("C20", q.api+"(the same memory asked about again after a change)", fmt.Sprint(q.want), fmt.Sprintf("%v %s (length %d, byte %d, %s)", got, p, n, pos, round), "", k)
+					}
+				}
+			}
+			c.Case()
+			ask("before the change", true, true, true)
+			buf[pos] = 0xe9
+			ask("a byte made non-ASCII", false, false, false)
+			buf[pos] = 0x07
+			ask("the byte made a control character", true, false, false)
+			buf[pos] = 'A'
+			ask("the byte made the other case", true, true, true)
+			buf[pos] = 'b'
+			ask("the byte made another letter", true, true, false)
+		}
+	}
+}
+
 func c20Extra(c *Ctx) {
+	c20Mutated(c)
 	// single bytes and runes: the whole domain
 	for i := 0; i < 256; i++ {
 		b := byte(i)
@@ -299,7 +348,7 @@ func c20Replay(c *Ctx, raw stdjson.RawMessage) {
 	if stdjson.Unmarshal(raw, &k) != nil {
 		return
 	}
-	if strings.Contains(k.API, "Rune") || strings.Contains(k.API, "Byte") {
+	if strings.Contains(k.API, "Rune") || strings.Contains(k.API, "Byte") || k.API == "mutated buffer" {
 		c20Extra(c)
 		return
 	}
